@@ -398,7 +398,8 @@ func (ss *SpecSet) parseFile(path string, dep bool) error {
 			case "interference":
 				cur.Interf = append(cur.Interf, splitLocs(rest)...)
 			case "at":
-				// at <site> assert [tags] expr | at <site> set ghost = expr
+				// at <site> assert [tags] expr | at <site> set ghost = expr | at <site> onpanic ghost = expr (set on the
+				// call's panicking exit; panicval is the value)
 				f := strings.SplitN(rest, " ", 3)
 				if len(f) < 3 {
 					return fmt.Errorf("%s:%d: at <site> assert|set ...", path, ln+1)
@@ -409,7 +410,7 @@ func (ss *SpecSet) parseFile(path string, dep bool) error {
 				}
 				ann := &SiteAnn{Site: site, Kind: f[1]}
 				body := f[2]
-				if f[1] == "set" {
+				if f[1] == "set" || f[1] == "onpanic" {
 					eq := strings.Index(body, "=")
 					if eq < 0 {
 						return fmt.Errorf("%s:%d: at <site> set ghost = expr", path, ln+1)
